@@ -36,7 +36,7 @@ Record obs := mkObs {
   o_pool : option (bool * reply * reply);
       (* the checks of checkTxs in front of the per-member checkTx pass (oracle fact);
          EventTx reply with an empty blacklist; with this blacklist *)
-  o_delay : option reply;           (* EventAddDelayTx reply for the entry (head of a group) *)
+  o_delay : option reply;           (* EventAddDelayTx reply for the entry (for a group: its wrapper) *)
   o_dblock : option bool            (* delayed tx embedded in a block: cached by addDelayTx *)
 }.
 
@@ -127,12 +127,9 @@ Section Points.
     (* known findings: narrow signatures *)
     let ot := outer_touches cks L b in
     let it := inner_touches cks L e b in
-    let head_t := match head b with Some t => tx_touches cks L t | None => false end in
-    let is_group := match b with BGroup _ => true | _ => false end in
     let code :=
       if s then 0
       else if (3 <=? ff) && negb ot && it then 1          (* proxied: inner touches, entry points look at the outer tx only *)
-      else if (5 <=? ff) && is_group && negb head_t && ot then 2   (* delayed group: only the head is looked at *)
       else if (ff =? 2) && ot && negb it && (match inner_of e b with Some _ => true | None => false end) then 3
                                                           (* proxied: executor looks at the inner tx only *)
       else 0 in
